@@ -59,8 +59,18 @@ Definition annot_ex : node :=
     annot_ex_5;
     annot_ex_6].
 
-(* real parser, text: 'class aFoo\ntype tCb : procedure(x : int4)\nproc Run\nendproc\nfb : int4\n' *)
+(* real parser, text: 'class aFoo\nproc Run\nendproc\nfb : int4\n' *)
 Definition annot_irr : node :=
+  Node KAstRoot [] 0 (mkRange (mkPos 0 0) (mkPos 0 0)) [] [
+    Node KAstClass [97;70;111;111] 0 (mkRange (mkPos 0 0) (mkPos 0 10)) [(1, AT (mkTok 6 (mkRange (mkPos 0 6) (mkPos 0 10)) TIdentifier [97;70;111;111])); (2, AL [])] [];
+    Node KAstProcedure [82;117;110] 11 (mkRange (mkPos 1 0) (mkPos 2 7)) [(5, AL [(mkTok 20 (mkRange (mkPos 2 0) (mkPos 2 7)) TEndProc [101;110;100;112;114;111;99])]); (6, AN 0)] [
+      Node KAstTerminal [82;117;110] 16 (mkRange (mkPos 1 5) (mkPos 1 8)) [(0, AT (mkTok 16 (mkRange (mkPos 1 5) (mkPos 1 8)) TIdentifier [82;117;110]))] [];
+      Node KAstMethodBody [109;101;116;104;111;100;95;98;111;100;121] 16 (mkRange (mkPos 1 5) (mkPos 1 8)) [] []];
+    Node KAstGlobalVariableDeclaration [102;98] 28 (mkRange (mkPos 3 0) (mkPos 3 9)) [(1, AT (mkTok 28 (mkRange (mkPos 3 0) (mkPos 3 2)) TIdentifier [102;98])); (6, AN 0)] [
+      Node KAstTypeBasic [105;110;116;52] 33 (mkRange (mkPos 3 5) (mkPos 3 9)) [(0, AT (mkTok 33 (mkRange (mkPos 3 5) (mkPos 3 9)) TIdentifier [105;110;116;52]))] []]].
+
+(* real parser, text: 'class aFoo\ntype tCb : procedure(x : int4)\nproc Run(p : int4)\n var cb : procedure(y : int4)\nendproc\n' *)
+Definition annot_leak : node :=
   Node KAstRoot [] 0 (mkRange (mkPos 0 0) (mkPos 0 0)) [] [
     Node KAstClass [97;70;111;111] 0 (mkRange (mkPos 0 0) (mkPos 0 10)) [(1, AT (mkTok 6 (mkRange (mkPos 0 6) (mkPos 0 10)) TIdentifier [97;70;111;111])); (2, AL [])] [];
     Node KAstTypeDeclaration [116;67;98] 11 (mkRange (mkPos 1 0) (mkPos 1 30)) [(1, AT (mkTok 16 (mkRange (mkPos 1 5) (mkPos 1 8)) TIdentifier [116;67;98]))] [
@@ -68,11 +78,17 @@ Definition annot_irr : node :=
         Node KAstParameterDeclarationList [112;97;114;97;109;95;100;101;99;108;115] 31 (mkRange (mkPos 1 20) (mkPos 1 30)) [] [
           Node KAstParameterDeclaration [120] 32 (mkRange (mkPos 1 21) (mkPos 1 29)) [(1, AT (mkTok 32 (mkRange (mkPos 1 21) (mkPos 1 22)) TIdentifier [120])); (7, AL [])] [
             Node KAstTypeBasic [105;110;116;52] 36 (mkRange (mkPos 1 25) (mkPos 1 29)) [(0, AT (mkTok 36 (mkRange (mkPos 1 25) (mkPos 1 29)) TIdentifier [105;110;116;52]))] []]]]];
-    Node KAstProcedure [82;117;110] 42 (mkRange (mkPos 2 0) (mkPos 3 7)) [(5, AL [(mkTok 51 (mkRange (mkPos 3 0) (mkPos 3 7)) TEndProc [101;110;100;112;114;111;99])]); (6, AN 0)] [
+    Node KAstProcedure [82;117;110] 42 (mkRange (mkPos 2 0) (mkPos 4 7)) [(5, AL [(mkTok 91 (mkRange (mkPos 4 0) (mkPos 4 7)) TEndProc [101;110;100;112;114;111;99])]); (6, AN 0)] [
       Node KAstTerminal [82;117;110] 47 (mkRange (mkPos 2 5) (mkPos 2 8)) [(0, AT (mkTok 47 (mkRange (mkPos 2 5) (mkPos 2 8)) TIdentifier [82;117;110]))] [];
-      Node KAstMethodBody [109;101;116;104;111;100;95;98;111;100;121] 47 (mkRange (mkPos 2 5) (mkPos 2 8)) [] []];
-    Node KAstGlobalVariableDeclaration [102;98] 59 (mkRange (mkPos 4 0) (mkPos 4 9)) [(1, AT (mkTok 59 (mkRange (mkPos 4 0) (mkPos 4 2)) TIdentifier [102;98])); (6, AN 0)] [
-      Node KAstTypeBasic [105;110;116;52] 64 (mkRange (mkPos 4 5) (mkPos 4 9)) [(0, AT (mkTok 64 (mkRange (mkPos 4 5) (mkPos 4 9)) TIdentifier [105;110;116;52]))] []]].
+      Node KAstParameterDeclarationList [112;97;114;97;109;95;100;101;99;108;115] 50 (mkRange (mkPos 2 8) (mkPos 2 18)) [] [
+        Node KAstParameterDeclaration [112] 51 (mkRange (mkPos 2 9) (mkPos 2 17)) [(1, AT (mkTok 51 (mkRange (mkPos 2 9) (mkPos 2 10)) TIdentifier [112])); (7, AL [])] [
+          Node KAstTypeBasic [105;110;116;52] 55 (mkRange (mkPos 2 13) (mkPos 2 17)) [(0, AT (mkTok 55 (mkRange (mkPos 2 13) (mkPos 2 17)) TIdentifier [105;110;116;52]))] []]];
+      Node KAstMethodBody [109;101;116;104;111;100;95;98;111;100;121] 62 (mkRange (mkPos 3 1) (mkPos 3 29)) [] [
+        Node KAstLocalVariableDeclaration [99;98] 62 (mkRange (mkPos 3 1) (mkPos 3 29)) [(1, AT (mkTok 66 (mkRange (mkPos 3 5) (mkPos 3 7)) TIdentifier [99;98]))] [
+          Node KAstTypeProcedure [116;121;112;101;95;112;114;111;99] 71 (mkRange (mkPos 3 10) (mkPos 3 29)) [] [
+            Node KAstParameterDeclarationList [112;97;114;97;109;95;100;101;99;108;115] 80 (mkRange (mkPos 3 19) (mkPos 3 29)) [] [
+              Node KAstParameterDeclaration [121] 81 (mkRange (mkPos 3 20) (mkPos 3 28)) [(1, AT (mkTok 81 (mkRange (mkPos 3 20) (mkPos 3 21)) TIdentifier [121])); (7, AL [])] [
+                Node KAstTypeBasic [105;110;116;52] 85 (mkRange (mkPos 3 24) (mkPos 3 28)) [(0, AT (mkTok 85 (mkRange (mkPos 3 24) (mkPos 3 28)) TIdentifier [105;110;116;52]))] []]]]]]]].
 
 Definition s_aFoo : str := [97;70;111;111].
 Definition s_aBar : str := [97;66;97;114].
@@ -108,16 +124,38 @@ Lemma annot_ex_tables :
      mkRange (mkPos 11 5) (mkPos 11 9)].
 Proof. vm_compute. repeat split; reflexivity. Qed.
 
-(* the irregular document `class aFoo / type tCb : procedure(x : int4) / proc Run / endproc / fb : int4`:
-   the parameter of the procedure TYPE is a variable of the root table (full mode only), the field
-   declared after the method belongs to the method's table *)
+(* the irregular document `class aFoo / proc Run / endproc / fb : int4`: the field declared after
+   the method belongs to the method's table *)
 Lemma annot_irr_facts :
   regularb annot_irr = false /\
-  map aview (t_syms (root_table_of false annot_irr)) =
-    [(s_aFoo, KClass); (s_self, KClass); ([116;67;98], KType); ([120], KVariable); ([82;117;110], KProc)] /\
-  map aview (t_syms (root_table_of true annot_irr)) =
-    [(s_aFoo, KClass); (s_self, KClass); ([116;67;98], KType); ([82;117;110], KProc)] /\
+  map aview (t_syms (root_table_of false annot_irr)) = [(s_aFoo, KClass); (s_self, KClass); ([82;117;110], KProc)] /\
   map (fun T => map aview (t_syms T)) (method_tables_of false annot_irr) = [[([102;98], KField)]] /\
   map sview (syms (root_table (entity_of_tree annot_irr))) =
-    [(s_aFoo, KClass); (s_self, KClass); ([116;67;98], KType); ([82;117;110], KProc); ([102;98], KField)].
+    [(s_aFoo, KClass); (s_self, KClass); ([82;117;110], KProc); ([102;98], KField)].
+Proof. vm_compute. repeat split; reflexivity. Qed.
+
+(* ---- regression pair of the repair c14b1c2 (handle_param_decl) ----
+   the rule BEFORE the repair: every AstParameterDeclaration node inserts a variable, wherever it
+   sits (= the repaired rule with the grandparent test always true) *)
+Definition visit_old (st : astate) (p : vnode) : astate := visit st (true, snd p).
+Definition annotate_old (defs_only : bool) (root : node) : astate :=
+  end_method (fold_left visit_old (visit_seq defs_only root) init_state).
+
+(* `class aFoo / type tCb : procedure(x : int4) / proc Run(p : int4) / var cb : procedure(y : int4) / endproc` *)
+Lemma annot_leak_facts :
+  (* old rule: x is a variable of the class's root table (full mode only), y a variable of Run *)
+  map aview (t_syms (st_root (annotate_old false annot_leak))) =
+    [(s_aFoo, KClass); (s_self, KClass); ([116;67;98], KType); ([120], KVariable); ([82;117;110], KProc)] /\
+  map aview (t_syms (st_root (annotate_old true annot_leak))) =
+    [(s_aFoo, KClass); (s_self, KClass); ([116;67;98], KType); ([82;117;110], KProc)] /\
+  map (fun T => map aview (t_syms T)) (st_done (annotate_old false annot_leak)) =
+    [[([112], KVariable); ([121], KVariable); ([99;98], KVariable)]] /\
+  (* repaired rule *)
+  regularb annot_leak = true /\
+  map aview (t_syms (root_table_of false annot_leak)) =
+    [(s_aFoo, KClass); (s_self, KClass); ([116;67;98], KType); ([82;117;110], KProc)] /\
+  map aview (t_syms (root_table_of true annot_leak)) =
+    [(s_aFoo, KClass); (s_self, KClass); ([116;67;98], KType); ([82;117;110], KProc)] /\
+  map (fun T => map aview (t_syms T)) (method_tables_of false annot_leak) =
+    [[([112], KVariable); ([99;98], KVariable)]].
 Proof. vm_compute. repeat split; reflexivity. Qed.
